@@ -151,16 +151,22 @@ MUL, ADD = 3, 1
 class MapFn:
     """deep-copyable map function with a switch point inside (user code runs between the worker's get and put)."""
 
-    def __init__(self, fail):
-        self.fail = list(fail)
+    def __init__(self, fail, slow=()):
+        self.fail, self.slow = list(fail), list(slow)
 
     def __call__(self, x):
         s = vsched.CUR
         if s is not None and not s.closed:
             s.switch()
+            if x in self.slow:
+                # user code slower than the consumer's poll timeout: the item stays in flight across queue.Empty polls
+                s.switch(lambda: False, SLOW_MAP)
         if x in self.fail:
             raise MapErr(f"map_fn fails on {x}")
         return x * MUL + ADD
+
+
+SLOW_MAP = 0.25  # virtual seconds; QUEUE_TIMEOUT of the real code is 0.1
 
 
 def ref_results(case) -> List[Tuple[str, int]]:
@@ -440,7 +446,7 @@ def translate(events: List[tuple], gens: List[Gen], in_order: bool):
 
 def build_node(case, src):
     from torchdata.nodes import ParallelMapper
-    return ParallelMapper(src, MapFn(case["fail"]), num_workers=case["N"], in_order=case["in_order"], method=case["method"],
+    return ParallelMapper(src, MapFn(case["fail"], case.get("slow", ())), num_workers=case["N"], in_order=case["in_order"], method=case["method"],
                           max_concurrent=case["mc"], snapshot_frequency=case["f"])
 
 
@@ -734,8 +740,9 @@ def gen_case(rng, method="thread", allow_reset=True) -> Dict[str, Any]:
         # after a SOURCE error the next next() hangs (known defect C11-a): stop the history at the error for K-T cases
         pass
     sched = {"seed": rng.randrange(1 << 30), "adv": rng.random() < 0.4, "starve": (rng.randrange(N) if rng.random() < (0.45 if N >= 2 else 0.1) else None)}
+    slow = sorted(rng.sample(items, rng.choice([1, 1, 2]))) if (len(items) >= 2 and rng.random() < 0.3) else []
     return {"N": N, "mc": mc, "f": f, "in_order": in_order, "method": method, "items": items, "term": term, "fail": fail,
-            "hist": hist, "sched": sched, "kill": None}
+            "hist": hist, "sched": sched, "kill": None, "slow": slow}
 
 
 def model_cfg(case, g: Gen) -> Dict[str, Any]:
